@@ -10,21 +10,27 @@
      handleAppendEntries -> maybeAppend / findConflict / truncate-and-append / commitTo,
      handleHeartbeat -> commitTo, MsgAppResp -> MaybeUpdate + maybeCommit
      (= quorum CommittedIndex over Match + current-term test), the leader's self-ack issued
-     by raft.advance, and restart from persisted state.
+     by raft.advance, and restart from persisted state (newRaft -> becomeFollower).
    The quorum is a *joint* configuration (c0, c1) fixed for the whole run; with c1 = [] it is
    the plain majority configuration c0 (quorum/joint.go: an empty half is neutral).
-   Emission of MsgVote / MsgApp / MsgHeartbeat is a relation ([emit_okb]): any message that is
-   consistent with the sender's state may be sent at any time, so the proofs do not depend on
-   the progress-tracking heuristics (Next, inflights, probing, MaxSizePerMsg).
-   The network is a monotonically growing bag: a message once sent can be delivered any
-   number of times, in any order, or never (loss, duplication, reordering, delay, partitions).
+   One [event] = one call into RawNode (Campaign / Propose / Step(m) / Tick / rebuild from
+   storage) followed by the Ready/Advance loop run to quiescence with everything persisted
+   before anything is sent (the contract of raft.Ready).  A crash in the middle of that loop
+   is the same as losing the event (and its messages) followed by a restart.
+   Replies (MsgVoteResp, MsgAppResp, MsgHeartbeatResp) are computed; the *emission* of
+   MsgVote / MsgApp / MsgHeartbeat is a relation ([emit_okb]): any message consistent with
+   the sender's state may be sent after any event, so nothing depends on the
+   progress-tracking heuristics (Next, inflights, probing, MaxSizePerMsg).
+   The network (RaftSys.v) is a monotonically growing bag: a message once sent can be
+   delivered any number of times, in any order, or never.
 
-   Not in this model (the trace validator counts such steps as out-of-model):
-   PreVote, CheckQuorum/leases, leader transfer, ReadIndex, learners, snapshots (MsgSnap)
-   and log compaction (transparent: see RaftCheck.v), configuration changes, the
-   uncommitted-size quota.  Messages with Term = 0 ("local" messages) are not network
-   messages here.  Go panics (conflict at or below commit, commitTo beyond the log) are
-   modelled as "the node does nothing" and shown unreachable separately where proved. *)
+   Log compaction and snapshots: the model keeps whole logs (compaction changes no handler's
+   behaviour: everything compacted is committed); MsgSnap carries, as a ghost field, the prefix
+   it stands for, and raft.restore replaces the log by it.
+   Not in this model: PreVote, CheckQuorum/leases, leader transfer, ReadIndex, learners,
+   configuration changes, the uncommitted-size quota.
+   Go panics (conflict at or below commit, commitTo beyond the log) are modelled as "the
+   node does nothing and sends nothing". *)
 Require Import List Arith Bool.
 Require Import Raft.Quorum.
 Import ListNotations.
@@ -81,7 +87,7 @@ Definition commit_to (l : elog) (committed tocommit : nat) : option nat :=
 (* raftLog.maybeAppend(index, logTerm, committed, ents...) *)
 Definition maybe_append (l : elog) (committed index logterm mcommit : nat) (ents : list entry)
   : app_result :=
-  if term_at l index =? logterm then
+  if term_at l index =? logterm then     (* matchTerm; raftLog.term is 0 beyond lastIndex *)
     let lastnewi := index + length ents in
     let ci := find_conflict l (index + 1) ents in
     if ci =? 0 then
@@ -120,7 +126,6 @@ Record nstate : Type := mkN {
   n_match : nat -> nat              (* tracker.Progress[id].Match *)
 }.
 
-Definition set_term_vote t v n := mkN t v (n_log n) (n_commit n) (n_role n) (n_lead n) (n_votes n) (n_match n).
 Definition set_vote v n := mkN (n_term n) v (n_log n) (n_commit n) (n_role n) (n_lead n) (n_votes n) (n_match n).
 Definition set_log l n := mkN (n_term n) (n_vote n) l (n_commit n) (n_role n) (n_lead n) (n_votes n) (n_match n).
 Definition set_commit c n := mkN (n_term n) (n_vote n) (n_log n) c (n_role n) (n_lead n) (n_votes n) (n_match n).
@@ -145,12 +150,13 @@ Definition opt_nat_eqb (a b : option nat) : bool :=
 (* ------------------------------------------------------------------ messages *)
 
 Inductive mtype : Type :=
-| MsgVote | MsgVoteResp | MsgApp | MsgAppResp | MsgHeartbeat | MsgHeartbeatResp.
+| MsgVote | MsgVoteResp | MsgApp | MsgAppResp | MsgHeartbeat | MsgHeartbeatResp | MsgSnap.
 
 Definition mtype_eqb (a b : mtype) : bool :=
   match a, b with
   | MsgVote, MsgVote | MsgVoteResp, MsgVoteResp | MsgApp, MsgApp
-  | MsgAppResp, MsgAppResp | MsgHeartbeat, MsgHeartbeat | MsgHeartbeatResp, MsgHeartbeatResp => true
+  | MsgAppResp, MsgAppResp | MsgHeartbeat, MsgHeartbeat | MsgHeartbeatResp, MsgHeartbeatResp
+  | MsgSnap, MsgSnap => true
   | _, _ => false
   end.
 
@@ -166,28 +172,42 @@ Record msg : Type := mkMsg {
   m_reject : bool
 }.
 
+(* nested conditionals rather than a conjunction: the extracted code stops at the first
+   differing field *)
+Definition msg_eqb (a b : msg) : bool :=
+  if mtype_eqb (m_type a) (m_type b) then
+  if m_from a =? m_from b then
+  if m_to a =? m_to b then
+  if m_term a =? m_term b then
+  if m_index a =? m_index b then
+  if m_logterm a =? m_logterm b then
+  if m_commit a =? m_commit b then
+  if Bool.eqb (m_reject a) (m_reject b) then log_eqb (m_ents a) (m_ents b)
+  else false else false else false else false else false else false else false else false.
+
 (* ------------------------------------------------------------------ transitions of one node *)
 
 Section Node.
   Variables c0 c1 : list nat.   (* incoming and outgoing voters (c1 = [] : not joint) *)
   Variable id : nat.            (* this node *)
 
-  (* raft.reset(term) *)
-  Definition reset (t : nat) (n : nstate) : nstate :=
-    mkN t (if n_term n =? t then n_vote n else None) (n_log n) (n_commit n) (n_role n) None
+  (* raft.reset(term) followed by the role/lead assignment of becomeFollower *)
+  Definition become_follower (t : nat) (lead : option nat) (n : nstate) : nstate :=
+    mkN t (if n_term n =? t then n_vote n else None) (n_log n) (n_commit n) Follower lead
         (fun _ => None)
         (fun i => if i =? id then length (n_log n) else 0).
 
-  Definition become_follower (t : nat) (lead : option nat) (n : nstate) : nstate :=
-    set_lead lead (set_role Follower (reset t n)).
-
+  (* becomeCandidate: reset(Term+1); Vote = id *)
   Definition become_candidate (n : nstate) : nstate :=
-    set_role Candidate (set_vote (Some id) (reset (S (n_term n)) n)).
+    mkN (S (n_term n)) (Some id) (n_log n) (n_commit n) Candidate None
+        (fun _ => None)
+        (fun i => if i =? id then length (n_log n) else 0).
 
-  (* becomeLeader: reset, then append the empty entry of the new term *)
+  (* becomeLeader: reset(Term), lead = id, then append the empty entry of the term *)
   Definition become_leader (n : nstate) : nstate :=
-    let n1 := set_lead (Some id) (set_role Leader (reset (n_term n) n)) in
-    set_log (n_log n1 ++ [(n_term n1, 0)]) n1.
+    mkN (n_term n) (n_vote n) (n_log n ++ [(n_term n, 0)]) (n_commit n) Leader (Some id)
+        (fun _ => None)
+        (fun i => if i =? id then length (n_log n) else 0).
 
   (* ProgressTracker.RecordVote: the first answer of a voter counts *)
   Definition record_vote (from : nat) (v : bool) (n : nstate) : nstate :=
@@ -200,7 +220,16 @@ Section Node.
 
   Definition is_voter (x : nat) : bool := existsb (Nat.eqb x) c0 || existsb (Nat.eqb x) c1.
 
-  (* raft.hup/campaign(campaignElection) *)
+  (* the tail of campaign() and of stepCandidate's vote-response case *)
+  Definition poll_result (n : nstate) : nstate :=
+    match tally n with
+    | VoteWon => become_leader n
+    | VoteLost => become_follower (n_term n) None n
+    | VotePending => n
+    end.
+
+  (* raft.hup/campaign(campaignElection); after the self-vote the tally can only be Won
+     (single voter) or Pending *)
   Definition hup (n : nstate) : nstate :=
     match n_role n with
     | Leader => n
@@ -230,6 +259,12 @@ Section Node.
     | Top => n
     end.
 
+  (* stepLeader MsgAppResp, not rejected: pr.MaybeUpdate(m.Index) and, if it moved, maybeCommit *)
+  Definition leader_ack (from k : nat) (n : nstate) : nstate :=
+    if n_match n from <? k
+    then maybe_commit (set_match (upd (n_match n) from k) n)
+    else n.
+
   Definition reply (ty : mtype) (to term index : nat) (rej : bool) : msg :=
     mkMsg ty id to term 0 index [] 0 rej.
 
@@ -252,24 +287,37 @@ Section Node.
     | None => (n, [])
     end.
 
+  (* raft.handleSnapshot / raft.restore.  m_index, m_logterm = Snapshot.Metadata.Index, .Term;
+     m_ents is ghost: the log prefix the snapshot stands for (the model keeps whole logs;
+     compaction is invisible to every handler).  After an actual restore the progress tracker
+     is rebuilt from the snapshot's ConfState (same voters): votes and Match are reset. *)
+  Definition handle_snapshot (m : msg) (n : nstate) : nstate * list msg :=
+    if m_index m <=? n_commit n then
+      (n, [reply MsgAppResp (m_from m) (n_term n) (n_commit n) false])
+    else if term_at (n_log n) (m_index m) =? m_logterm m then          (* matchTerm: fast-forward commit *)
+      match commit_to (n_log n) (n_commit n) (m_index m) with
+      | Some c => (set_commit c n, [reply MsgAppResp (m_from m) (n_term n) c false])
+      | None => (n, [])
+      end
+    else
+      (mkN (n_term n) (n_vote n) (m_ents m) (m_index m) (n_role n) (n_lead n)
+           (fun _ => None) (fun i => if i =? id then m_index m else 0),
+       [reply MsgAppResp (m_from m) (n_term n) (m_index m) false]).
+
+  Definition can_vote (m : msg) (n : nstate) : bool :=
+    opt_nat_eqb (n_vote n) (Some (m_from m))
+    || (opt_nat_eqb (n_vote n) None && opt_nat_eqb (n_lead n) None).
+
   (* the part of raft.Step after the term comparison; here m_term m = n_term n *)
   Definition step_same (m : msg) (n : nstate) : nstate * list msg :=
     match m_type m with
     | MsgVote =>
-        let can_vote := opt_nat_eqb (n_vote n) (Some (m_from m))
-                        || (opt_nat_eqb (n_vote n) None && opt_nat_eqb (n_lead n) None) in
-        if can_vote && is_up_to_date (n_log n) (m_index m) (m_logterm m) then
+        if can_vote m n && is_up_to_date (n_log n) (m_index m) (m_logterm m) then
           (set_vote (Some (m_from m)) n, [reply MsgVoteResp (m_from m) (m_term m) 0 false])
         else (n, [reply MsgVoteResp (m_from m) (n_term n) 0 true])
     | MsgVoteResp =>
         match n_role n with
-        | Candidate =>
-            let n1 := record_vote (m_from m) (negb (m_reject m)) n in
-            match tally n1 with
-            | VoteWon => (become_leader n1, [])
-            | VoteLost => (become_follower (n_term n1) None n1, [])
-            | VotePending => (n1, [])
-            end
+        | Candidate => (poll_result (record_vote (m_from m) (negb (m_reject m)) n), [])
         | _ => (n, [])
         end
     | MsgApp =>
@@ -287,20 +335,24 @@ Section Node.
     | MsgAppResp =>
         match n_role n with
         | Leader =>
-            if m_reject m then (n, [])
-            else if n_match n (m_from m) <? m_index m
-                 then (maybe_commit (set_match (upd (n_match n) (m_from m) (m_index m)) n), [])
-                 else (n, [])
+            if m_reject m || negb (is_voter (m_from m)) then (n, [])   (* no Progress: ignored *)
+            else (leader_ack (m_from m) (m_index m) n, [])
         | _ => (n, [])
         end
     | MsgHeartbeatResp => (n, [])
+    | MsgSnap =>
+        match n_role n with
+        | Leader => (n, [])
+        | Candidate => handle_snapshot m (become_follower (n_term n) (Some (m_from m)) n)
+        | Follower => handle_snapshot m (set_lead (Some (m_from m)) n)
+        end
     end.
 
   (* raft.Step for a network message *)
   Definition step_msg (m : msg) (n : nstate) : nstate * list msg :=
     if n_term n <? m_term m then
       let lead := match m_type m with
-                  | MsgApp | MsgHeartbeat => Some (m_from m)
+                  | MsgApp | MsgHeartbeat | MsgSnap => Some (m_from m)
                   | _ => None
                   end in
       step_same m (become_follower (m_term m) lead n)
@@ -308,18 +360,35 @@ Section Node.
     else step_same m n.
 
   (* raft.advance: "the leader needs to self-ack the entries just appended":
-     Step(MsgAppResp{From: r.id, Index: lastIndex}) *)
-  Definition self_ack_msg (n : nstate) : msg :=
-    mkMsg MsgAppResp id id (n_term n) 0 (length (n_log n)) [] 0 false.
-
-  Definition self_ack (n : nstate) : nstate :=
+     Step(MsgAppResp{From: r.id, Index: lastIndex}) once they are persisted *)
+  Definition advance (n : nstate) : nstate :=
     match n_role n with
-    | Leader => fst (step_same (self_ack_msg n) n)
+    | Leader => leader_ack id (length (n_log n)) n
     | _ => n
     end.
 
   (* newRaft on the persisted state: becomeFollower(term, None) *)
   Definition restart (n : nstate) : nstate := become_follower (n_term n) None n.
+
+  (* one call into the RawNode, Ready loop run to quiescence *)
+  Inductive event : Type :=
+  | EvCampaign
+  | EvPropose (payload : nat)
+  | EvRecv (m : msg)
+  | EvRestart
+  | EvTick.                      (* election timer never fires (or is an EvCampaign); a leader may send heartbeats *)
+
+  Definition handle (ev : event) (n : nstate) : nstate * list msg :=
+    match ev with
+    | EvCampaign => (hup n, [])
+    | EvPropose p => (propose p n, [])
+    | EvRecv m => step_msg m n
+    | EvRestart => (restart n, [])
+    | EvTick => (n, [])
+    end.
+
+  Definition exec_node (ev : event) (n : nstate) : nstate * list msg :=
+    let (n1, out) := handle ev n in (advance n1, out).
 
   (* messages a node may put on the wire on its own initiative, given its (new) state *)
   Definition is_segment (ents : list entry) (index : nat) (l : elog) : bool :=
@@ -332,67 +401,18 @@ Section Node.
         role_eqb (n_role n) Candidate && (m_index m =? last_index (n_log n))
         && (m_logterm m =? last_term (n_log n))
     | MsgApp =>
-        role_eqb (n_role n) Leader && (m_index m <=? length (n_log n))
+        role_eqb (n_role n) Leader
         && (m_logterm m =? term_at (n_log n) (m_index m))
         && is_segment (m_ents m) (m_index m) (n_log n)
         && (m_commit m <=? n_commit n)
     | MsgHeartbeat =>
         role_eqb (n_role n) Leader
         && (m_commit m <=? Nat.min (n_match n (m_to m)) (n_commit n))
+    | MsgSnap =>
+        (* a snapshot of a committed prefix of the leader's log (storage.Snapshot after a compaction) *)
+        role_eqb (n_role n) Leader && (m_index m <=? n_commit n)
+        && (m_logterm m =? term_at (n_log n) (m_index m))
+        && log_eqb (m_ents m) (firstn (m_index m) (n_log n))
     | _ => false
     end.
-
-  (* the local transitions *)
-  Inductive local_step (bag : list msg) (n : nstate) : nstate -> list msg -> Prop :=
-  | L_campaign : local_step bag n (hup n) []
-  | L_propose : forall payload, local_step bag n (propose payload n) []
-  | L_recv : forall m, In m bag -> m_to m = id -> m_from m <> id ->
-      local_step bag n (fst (step_msg m n)) (snd (step_msg m n))
-  | L_selfack : n_role n = Leader -> local_step bag n (self_ack n) [self_ack_msg n]
-  | L_restart : local_step bag n (restart n) []
-  | L_idle : local_step bag n n [].
 End Node.
-
-(* ------------------------------------------------------------------ the system *)
-
-Record gstate : Type := mkG {
-  g_nodes : nat -> nstate;
-  g_msgs : list msg;                       (* everything ever sent *)
-  (* ghost history, never read by a transition *)
-  g_voted : list (nat * nat * nat);        (* (node, term, candidate): every vote ever held *)
-  g_llog : nat -> elog;                    (* term -> log of the leader of that term ([] = none yet) *)
-  g_lof : nat -> option nat;               (* term -> the node that led it *)
-  g_cterm : nat -> nat                     (* node -> its term when its commit index last moved *)
-}.
-
-Definition init_state : gstate :=
-  mkG (fun _ => init_node) [] [] (fun _ => []) (fun _ => None) (fun _ => 0).
-
-Definition ghost_voted (id : nat) (n' : nstate) (v : list (nat * nat * nat)) :=
-  match n_vote n' with
-  | Some c => (id, n_term n', c) :: v
-  | None => v
-  end.
-
-Definition next_state (g : gstate) (id : nat) (n' : nstate) (out : list msg) : gstate :=
-  let n := g_nodes g id in
-  mkG (upd (g_nodes g) id n')
-      (g_msgs g ++ out)
-      (ghost_voted id n' (g_voted g))
-      (match n_role n' with Leader => upd (g_llog g) (n_term n') (n_log n') | _ => g_llog g end)
-      (match n_role n' with Leader => upd (g_lof g) (n_term n') (Some id) | _ => g_lof g end)
-      (if n_commit n <? n_commit n' then upd (g_cterm g) id (n_term n') else g_cterm g).
-
-Section System.
-  Variables c0 c1 : list nat.
-
-  Inductive step (g : gstate) : gstate -> Prop :=
-  | Step : forall id n' replies extra,
-      local_step c0 c1 id (g_msgs g) (g_nodes g id) n' replies ->
-      forallb (emit_okb id n') extra = true ->
-      step g (next_state g id n' (replies ++ extra)).
-
-  Inductive reachable : gstate -> Prop :=
-  | R_init : reachable init_state
-  | R_step : forall g g', reachable g -> step g g' -> reachable g'.
-End System.
